@@ -198,10 +198,11 @@ bool Alarm::activeTimer() {
 
   auto remain_sec = next_utc_sec - curr_utc_sec;
   //! 提升精度，计算中需要等待的毫秒数
-  auto remain_usec = (remain_sec * 1000) - (curr_utc_usec / 1000);
+  //! 注意：要用64位计算，否则超过约49.7天（2^32毫秒）就会回绕，导致提前触发
+  auto remain_usec = (static_cast<uint64_t>(remain_sec) * 1000) - (curr_utc_usec / 1000);
 
 #if 1
-  LogTrace("next_utc_sec:%u, remain_sec:%u, remain_usec:%u", next_utc_sec, remain_sec, remain_usec);
+  LogTrace("next_utc_sec:%u, remain_sec:%u, remain_usec:%llu", next_utc_sec, remain_sec, static_cast<unsigned long long>(remain_usec));
 #endif
 
   //! 启动定时器
